@@ -171,8 +171,20 @@ func (c Cap) InteriorIntersects(other Cap) bool {
 	if c.radius <= 0 || other.IsEmpty() {
 		return false
 	}
+	// The interior of the full cap is the whole sphere.
+	if c.IsFull() {
+		return true
+	}
 
-	return c.radius.Add(other.radius) > ChordAngleBetweenPoints(c.center, other.center)
+	dist := ChordAngleBetweenPoints(c.center, other.center)
+	if dist < s1.StraightChordAngle {
+		return c.radius.Add(other.radius) > dist
+	}
+	// The centers are antipodal. ChordAngle.Add clamps the sum of the radii
+	// at 180 degrees, so it cannot tell whether the radii add up to more than
+	// 180 degrees. They do if and only if the squared chord lengths add up to
+	// more than 4 (the squared chord of 180 degrees minus r is 4 minus that of r).
+	return float64(c.radius)+float64(other.radius) > float64(s1.StraightChordAngle)
 }
 
 // ContainsPoint reports whether this cap contains the point.
